@@ -468,6 +468,8 @@ int __wrap_pthread_cond_wait(pthread_cond_t *c, pthread_mutex_t *m)
 	if (!sched_on)
 		return __real_pthread_cond_wait(c, m);
 	sim_sched_stats.cond_waits++;
+	if (self_id == 0)
+		sim_sched_stats.cond_waits_t0++;
 	sim_unlock(m);
 	T[self_id].woken = 0;
 	block_on(TS_COND, c);
